@@ -1,6 +1,7 @@
 package checks
 
 import (
+	"bytes"
 	"encoding/json"
 	"fmt"
 	"os"
@@ -14,8 +15,11 @@ import (
 
 	"github.com/anishathalye/porcupine"
 	"github.com/xinchentechnote/fin-proto-go/codec"
+	sample "github.com/xinchentechnote/fin-proto-go/sample-bin/messages"
+	szse "github.com/xinchentechnote/fin-proto-go/szse-bin/messages"
 
 	"verif/internal/gen"
+	"verif/internal/mon"
 )
 
 func init() { Registry["C19"] = c19 }
@@ -28,14 +32,28 @@ type svc struct {
 
 func (s *svc) Algorithm() string { return s.name }
 
+// svcI32 / svcU32 are harness services registered under the names the generated frame encoders look up
+// ("SZSE_BIN": int32 result, "CRC32": uint32 result).  Their Calc returns the registration id, so the
+// trailer a frame encoder writes reveals WHICH registration its internal look-up saw.
+type svcI32 struct{ svc }
+
+func (s *svcI32) Calc(*bytes.Buffer) int32 { return int32(s.id) }
+
+type svcU32 struct{ svc }
+
+func (s *svcU32) Calc(*bytes.Buffer) uint32 { return uint32(s.id) }
+
+const encSentinel = 0x7FFFFFF1 // caller-supplied checksum: survives Encode iff the look-up found nothing
+
 const (
 	opRegistry = iota
 	opGet
 	opRemove
 	opClear
+	opEncode // a frame encode whose internal look-up of the name is observed through the trailer it writes
 )
 
-var opNames = []string{"Registry", "Get", "Remove", "Clear"}
+var opNames = []string{"Registry", "Get", "Remove", "Clear", "EncodeLookup"}
 
 type regIn struct {
 	Op  int
@@ -55,7 +73,7 @@ type regEvent struct {
 	client    int
 }
 
-var c19Keys = []string{"VERIF_ALG_A", "VERIF_ALG_B"}
+var c19Keys = []string{"SZSE_BIN", "CRC32"}
 
 var regModel = porcupine.Model{
 	Init: func() any { return [2]int64{} },
@@ -72,7 +90,7 @@ var regModel = porcupine.Model{
 				return true, s
 			}
 			return !o.OK, s
-		case opGet:
+		case opGet, opEncode:
 			if s[i.Key] == 0 {
 				return !o.OK, s
 			}
@@ -95,6 +113,8 @@ var regModel = porcupine.Model{
 			return fmt.Sprintf("Get(%s)->(#%d,%v)", c19Keys[i.Key], o.ID, o.OK)
 		case opRemove:
 			return fmt.Sprintf("Remove(%s)", c19Keys[i.Key])
+		case opEncode:
+			return fmt.Sprintf("EncodeLookup(%s)->(#%d,%v)", c19Keys[i.Key], o.ID, o.OK)
 		}
 		return "Clear()"
 	},
@@ -104,19 +124,50 @@ var regModel = porcupine.Model{
 func doOp(in regIn) regOut {
 	switch in.Op {
 	case opRegistry:
-		return regOut{OK: codec.Registry(&svc{name: c19Keys[in.Key], id: in.ID})}
+		if in.Key == 0 {
+			return regOut{OK: codec.Registry(&svcI32{svc{name: c19Keys[0], id: in.ID}})}
+		}
+		return regOut{OK: codec.Registry(&svcU32{svc{name: c19Keys[1], id: in.ID}})}
 	case opGet:
 		s, ok := codec.Get(c19Keys[in.Key])
 		if !ok {
 			return regOut{}
 		}
-		if h, isH := s.(*svc); isH {
+		var h *svc
+		switch x := s.(type) {
+		case *svcI32:
+			h = &x.svc
+		case *svcU32:
+			h = &x.svc
+		}
+		if h != nil {
 			if h.name != c19Keys[in.Key] {
 				return regOut{OK: true, ID: -h.id} // a service under the wrong name: never explainable
 			}
 			return regOut{OK: true, ID: h.id}
 		}
 		return regOut{OK: true, ID: -1}
+	case opEncode:
+		var sum int64
+		err, p := mon.Call(func() error {
+			if in.Key == 0 {
+				f := &szse.SzseBinary{MsgType: 3, Body: &szse.Heartbeat{}, Checksum: encSentinel}
+				e := f.Encode(new(bytes.Buffer))
+				sum = int64(f.Checksum)
+				return e
+			}
+			f := &sample.RootPacket{MsgType: 4, Payload: &sample.EmptyPacket{}, Checksum: encSentinel}
+			e := f.Encode(new(bytes.Buffer))
+			sum = int64(f.Checksum)
+			return e
+		})
+		if p != nil || err != nil {
+			return regOut{OK: true, ID: -2} // a frame encode that panics or fails while the registry changes: never explainable
+		}
+		if sum == encSentinel {
+			return regOut{}
+		}
+		return regOut{OK: true, ID: sum}
 	case opRemove:
 		codec.Remove(c19Keys[in.Key])
 	case opClear:
@@ -148,17 +199,21 @@ func recordHistory(rng *gen.Rng, hist int, shape int) []regEvent {
 				// all register the same fresh key at once, then look it up
 				if k == 0 {
 					in = regIn{Op: opRegistry, Key: 0, ID: id}
-				} else {
+				} else if c%2 == 0 {
 					in = regIn{Op: opGet, Key: 0}
+				} else {
+					in = regIn{Op: opEncode, Key: 0}
 				}
 			} else {
 				x := rng.Intn(100)
 				key := rng.Intn(2)
 				switch {
-				case x < 45:
+				case x < 38:
 					in = regIn{Op: opRegistry, Key: key, ID: id}
-				case x < 70:
+				case x < 53:
 					in = regIn{Op: opGet, Key: key}
+				case x < 70:
+					in = regIn{Op: opEncode, Key: key}
 				case x < 95:
 					in = regIn{Op: opRemove, Key: key}
 				default:
@@ -166,6 +221,12 @@ func recordHistory(rng *gen.Rng, hist int, shape int) []regEvent {
 				}
 			}
 			plans[c] = append(plans[c], in)
+		}
+	}
+	if hist%2 == 1 {
+		// a populated registry: copy-on-write or entry-by-entry implementations have a much wider window then
+		for k := 0; k < 64; k++ {
+			codec.Registry(&svc{name: fmt.Sprintf("VERIF_BACKGROUND_%02d", k), id: int64(k + 1)})
 		}
 	}
 	logs := make([][]regEvent, clients)
@@ -212,10 +273,12 @@ func recordHistory(rng *gen.Rng, hist int, shape int) []regEvent {
 	}
 	// quiescent reads: one sequential Get per key after everybody has returned
 	for k := 0; k < 2; k++ {
-		t0 := int64(time.Since(start))
-		out := doOp(regIn{Op: opGet, Key: k})
-		t1 := int64(time.Since(start))
-		evs = append(evs, regEvent{in: regIn{Op: opGet, Key: k}, out: out, call: t0, ret: t1, client: clients})
+		for _, op := range []int{opGet, opEncode} {
+			t0 := int64(time.Since(start))
+			out := doOp(regIn{Op: op, Key: k})
+			t1 := int64(time.Since(start))
+			evs = append(evs, regEvent{in: regIn{Op: op, Key: k}, out: out, call: t0, ret: t1, client: clients})
+		}
 	}
 	return evs
 }
@@ -324,7 +387,7 @@ func c19Workload(e *Env, n int, label string) c19Stats {
 			bad := wins != 1
 			for _, ev := range rc.evs {
 				// every look-up that started after the winning registration returned must see the winner
-				if ev.in.Op == opGet && ev.in.Key == 0 && ev.client == 12 && (!ev.out.OK || ev.out.ID != winner) {
+				if (ev.in.Op == opGet || ev.in.Op == opEncode) && ev.in.Key == 0 && ev.client == 12 && (!ev.out.OK || ev.out.ID != winner) {
 					bad = true
 				}
 			}
@@ -423,7 +486,7 @@ func c19(e *Env) {
 		}
 		return
 	}
-	r.Rule("short concurrent histories against the real registry: shape A = 6 goroutines × 5 operations on 2 algorithm names, mix 45% Registry / 25% Get / 25% Remove / 5% Clear; shape B (every 5th) = 12 goroutines all registering the same fresh name at once, then looking it up; every 10th history uses 3 goroutines × 10 operations, another every 10th 10 goroutines × 3; goroutines are released by a busy-wait barrier so calls genuinely overlap, with private random jitter between (never inside) calls; every registered service carries a unique id so that a look-up identifies the registration it saw; one sequential Get per name is appended after the goroutines have joined. Histories are recorded at the client boundary into per-goroutine slices with one monotonic clock (no shared recorder state inside the measured region). The workload runs in its own child process (it clears the built-in services; a runtime 'concurrent map' abort must not take the monitor down), once in a plain build and once in a -race build; plus five fresh processes whose very first registry calls are Clear / Remove / Registry / Get on the names of the built-in services (sequential, judged against the model started from the four built-ins). distinct_nontrivial = histories with at least one real-time overlap between calls of different goroutines")
+	r.Rule("short concurrent histories against the real registry: shape A = 6 goroutines × 5 operations on the 2 algorithm names that generated frame encoders look up (SZSE_BIN, CRC32), mix 38% Registry / 15% Get / 17% EncodeLookup (a real SzseBinary / RootPacket frame encode; the harness services return their registration id as checksum, so the trailer reveals which registration the encoder's internal look-up saw) / 25% Remove / 5% Clear; every second history starts from a registry that also holds 64 background names; shape B (every 5th) = 12 goroutines all registering the same fresh name at once, then looking it up; every 10th history uses 3 goroutines × 10 operations, another every 10th 10 goroutines × 3; goroutines are released by a busy-wait barrier so calls genuinely overlap, with private random jitter between (never inside) calls; every registered service carries a unique id so that a look-up identifies the registration it saw; one sequential Get per name is appended after the goroutines have joined. Histories are recorded at the client boundary into per-goroutine slices with one monotonic clock (no shared recorder state inside the measured region). The workload runs in its own child process (it clears the built-in services; a runtime 'concurrent map' abort must not take the monitor down), once in a plain build and once in a -race build; plus five fresh processes whose very first registry calls are Clear / Remove / Registry / Get on the names of the built-in services (sequential, judged against the model started from the four built-ins). distinct_nontrivial = histories with at least one real-time overlap between calls of different goroutines")
 	r.Explain("Oracle 1: porcupine v1.3.0 linearizability check of every recorded history against a 25-line sequential map model (Registry succeeds iff the name is absent; Get returns the current registration or absent; Remove; Clear), unpartitioned because Clear spans names; checker timeout 10 s per history ⇒ inconclusive, never a violation. Oracle 2: Go race detector on the same workload (reports counted from the log), and the runtime's own 'concurrent map read and map write' abort. Oracle 3: the quiescent final Gets must be explained by the same linearization (a lost or duplicated insert nobody happened to read is still caught); shape B additionally asserts exactly one winner that the later look-up returns. A Get that returns a service whose own name differs from the name asked for can never be explained.")
 	r.Assume("linearizability is decided for the histories recorded, not for all interleavings", "the race detector judges only the accesses the workload performed")
 	runBuild := func(bin, mode, label string) {
